@@ -312,6 +312,74 @@ def _pick_time(model, env):
     return t if t <= 10**6 else None
 
 
+def _isqrt_frac(x: Fraction):
+    """exact square root of a non-negative rational, or None"""
+    if x < 0:
+        return None
+    a, b = math.isqrt(x.numerator), math.isqrt(x.denominator)
+    return Fraction(a, b) if a * a == x.numerator and b * b == x.denominator else None
+
+
+def _eigenvalues(ode):
+    """rational eigenvalues of a linear system with <= 2 compartments (from the flows at the probe), else None"""
+    names = ode["names"]
+    if len(names) > 2:
+        return None
+    M = {a: {b: Fraction(0) for b in names} for a in names}
+    for (a, b), val in ode["flows"].items():
+        if val is None or not val.is_rat:
+            return None
+        M[a][a] -= val.rat
+        if b != "OUT":
+            M[b][a] += val.rat
+    if len(names) == 1:
+        return [M[names[0]][names[0]]]
+    a, b = names
+    tr = M[a][a] + M[b][b]
+    det = M[a][a] * M[b][b] - M[a][b] * M[b][a]
+    r = _isqrt_frac(tr * tr - 4 * det)
+    if r is None or r == 0:
+        return None
+    return [(tr + r) / 2, (tr - r) / 2]
+
+
+def _design_point(model, salt, rng, tries=1500):
+    """A probe point at which a linear system has distinct rational eigenvalues and exp(eigenvalue * t) stays in Q:
+    etas zero, covariates 1, small integer thetas searched so that the discriminant is a perfect square."""
+    import itertools
+    import pharmpy.modeling as pm
+
+    env = probe(model, salt, etas="zero")
+    special = set()
+    for typ in ("id", "idv", "dose", "dv"):
+        try:
+            special |= set(model.datainfo.typeix[typ].names)
+        except Exception:  # noqa: BLE001
+            pass
+    for col in model.datainfo.names:
+        if col not in special:
+            env[col] = ONE
+    thetas = [p.name for p in pm.get_thetas(model) if not p.fix]
+    combos = list(itertools.product([1, 2, 3, 4, 6], repeat=min(len(thetas), 6)))
+    rng.shuffle(combos)
+    for combo in combos[:tries]:
+        e2 = dict(env)
+        for n, val in zip(thetas, combo):
+            e2[n] = Q(val)
+        _, ode = P.run(model, e2)
+        if not ode:
+            return None
+        ev = _eigenvalues(ode)
+        if ev is None or any(x == 0 for x in ev) or len(set(ev)) != len(ev):
+            continue
+        t = 1
+        for x in ev:
+            t = t * x.denominator // math.gcd(t, x.denominator)
+        if all(abs(x * t) <= 40 for x in ev) and t <= 1000:
+            return e2, t
+    return None
+
+
 def solve_event(m1, cx):
     """solve_ode_system: the closed form must satisfy the system (residual, initial condition) and, with the
     amounts taken from the closed form, every observable keeps its value"""
@@ -329,15 +397,18 @@ def solve_event(m1, cx):
     cs = m1.statements.ode_system
     before, after, pairs = [], [], []
     k = -1
-    for salt in range(cx["salt"], cx["salt"] + 12):
+    for attempt in range(8):
         if k >= 1:
             break
-        env = probe(m1, salt, etas="zero" if salt % 2 else "small")
-        if salt >= cx["salt"] + 2:
-            # small integer thetas keep the rates (and with them the exponents rate * t) small
-            for j, pn in enumerate(p.name for p in pm.get_thetas(m1) if not p.fix):
-                env[pn] = Q(j + 2 + (salt % 3))
-        t = _pick_time(m1, env)
+        salt = cx["salt"] + attempt
+        if attempt < 2:
+            env = probe(m1, salt, etas="zero" if attempt else "small")
+            t = _pick_time(m1, env)
+        else:
+            got = _design_point(m1, salt, cx["rng"])
+            if got is None:
+                continue
+            env, t = got
         if t is None:
             continue
         env["t"] = Q(t)
